@@ -125,13 +125,13 @@ PROPS["C18"] = {
 }
 
 PROPS["C07"] = {
-    "pkgs": ["gbn"],
+    "pkgs": ["gbn", "mailbox"],
     "level": "fault_enumeration",
     "quick_budget": 70, "thorough_budget": 1800,
-    "rule": "Enumerated: gbn.Deserialize on every byte string of length 0..3 and (thorough: all 2^32; quick: first byte a packet type, 0x00 or 0xFF) 4-byte strings; all 256 SYN window values proposed by a scripted conforming client to a real server, plain and restarted handshake, followed by data in both directions. Sampled: garbage (every type byte x lengths 0..6, all ACK/NACK/SYN byte values, DATA with arbitrary header bytes, truncated/extended/bit-flipped captured packets, random longer strings) injected toward either live endpoint in every phase (before/inside the handshake, idle, k packets outstanding, mid-resend), followed by a conforming exchange. Oracle: no task panics (caught at the task root with stack); white-box window invariants after each injection (s = n+1 >= 2, base/top/recvSeq < s, size <= n)." + SIG_RULE + " For enumerated sub-batches a case is one first byte / one SYN value.",
+    "rule": "Enumerated: gbn.Deserialize on every byte string of length 0..3 and (thorough: all 2^32; quick: first byte a packet type, 0x00 or 0xFF) 4-byte strings; all 256 SYN window values proposed by a scripted conforming client to a real server, plain and restarted handshake, followed by data in both directions. Sampled: garbage (every type byte x lengths 0..6, all ACK/NACK/SYN byte values, DATA with arbitrary header bytes, truncated/extended/bit-flipped captured packets, random longer strings) injected toward either live endpoint in every phase (before/inside the handshake, idle, k packets outstanding, mid-resend), followed by a conforming exchange. Mailbox part: MsgData.Deserialize on every byte string of length 0..3 and on 5-byte headers with boundary length fields; stripJSONWrapper on a grammar of envelopes; garbage / truncated / extended / mutated Noise handshake acts and encrypted records against real parties in every configuration; forged messages injected by the stub relay into live full-stack sessions. Oracle: no task panics (caught at the task root with stack); white-box window invariants after each injection (s = n+1 >= 2, base/top/recvSeq < s, size <= n)." + SIG_RULE + " For enumerated sub-batches a case is one first byte / one SYN value.",
     "assumptions": ["GBN packets are unauthenticated: a forged but well-formed ACK/DATA may legitimately disturb the stream (counted by a probe); only crashes and bookkeeping outside the valid range are violations"],
-    "components": GBN_COMPONENTS,
-    "expected_probes": ["c07.deserialize-cases", "c07.scripted-exchange-complete", "c07.server-refused-window"],
+    "components": dict(GBN_COMPONENTS, **{"mailbox package (framing, Noise, conns, Server/Client)": "real code, instrumented copy of the working tree", "hashmail relay": "stub that also forges messages"}),
+    "expected_probes": ["c07.deserialize-cases", "c07.scripted-exchange-complete", "c07.server-refused-window", "c07.msgdata-cases", "c07.json-cases", "c05.transfer-complete-after-heal"],
     "level_text": "Fault enumeration: the finite sets named in the rule (all short byte strings into the decoder, all 256 proposals of the SYN window field) are enumerated completely against the real code; injections into live simulated endpoints are seeded samples over phases and schedules.",
     "level_note": LEVEL_NOTE_GBN,
 }
